@@ -12,7 +12,7 @@ CHECK = {'level': 'model_checking',
          'rekey (rotation API and deprecated API) / fail-over / restart on two real Cores sharing one store and one HA '
          'lock; after every step the active node reads everything back and writes under the newest term, the node that '
          'took over holds the keyring the active node had, a sealed node serves nothing, and a copy of the store '
-         'unseals on a new node with the currently valid shares',
+         'unseals on a new node with the currently valid shares. S: every interleaving (storage-operation and contended-lock points, bound 2/3; lock-level points with one preemption) of the periodic auto-rotate check, key rotation, root-key rotation and a write, followed by a write, a restart and a read-back of everything',
  'assumptions': ['Seal()/RotateRootKey on an already sealed barrier are not driven (Core never calls them sealed)',
                  'Core crash runs obtain the would-be new shares from a fault-free pass (deterministic crypto/rand '
                  'seam)'],
@@ -37,6 +37,13 @@ CHECK = {'level': 'model_checking',
             'pkg': './internal/verifh/core',
             'run': '^TestVerifC10CoreHist$',
             'rewrite': {'sync': ['internal', 'sdk']},
+            'shards': {'quick': 16, 'thorough': 16},
+            'timeout': {'quick': 900, 'thorough': 3000}},
+           {'name': 'sched',
+            'pkg': './internal/verifh/core',
+            'run': '^TestVerifC10Sched$',
+            'rewrite': {'sync': ['internal', 'sdk']},
+            'gomaxprocs': 2,
             'shards': {'quick': 16, 'thorough': 16},
             'timeout': {'quick': 900, 'thorough': 3000}},
            {'name': 'ha',
